@@ -131,6 +131,15 @@ def echo(src):
 
 
 INST = {"k": "inst"}
+FSTRS = {"k": "fstrs"}       # string[]: [null, path of a file, "not a path", path of a file]
+FILES2D = {"k": "files2d"}   # a two-dimensional array of files: [[f, f], [f], []]
+
+
+def FMAPK(*keys):
+    """a typed map of files with the given keys"""
+    return {"k": "fmapk", "keys": list(keys)}
+
+
 def FILEODD(src):
     """a file when the int input `src` is odd, null otherwise"""
     return {"k": "fileodd", "src": src}
@@ -330,8 +339,17 @@ def render(prog, stage_src="vstage", invocation=True, include_call=True, stage_l
             if c["id"] != c["callee"]:
                 head += " as " + c["id"]
             out.append("    %s(" % head)
+            ws = c.get("wildsrc")
+            covered = 0
             for b in c["binds"]:
+                e = b["e"]
+                if ws and ((ws == "self" and e["k"] == "self" and e["id"] == b["n"] and not e["path"]) or
+                           (e["k"] == "ref" and e["call"] == ws and e["out"] == b["n"] and not e["path"])):
+                    covered += 1       # supplied by the wildcard binding below
+                    continue
                 out.append("        %s = %s," % (b["n"], render_exp(b["e"], pt.get(b["n"]), prog)))
+            if ws and covered:
+                out.append("        * = %s," % ws)
             mods = []
             if c["dis"]["k"] != "none":
                 mods.append("        disabled = %s," % render_exp(c["dis"]))
